@@ -415,6 +415,10 @@ def check_guarded_fields(ctx, rid, cls, only_fields=None, doc=None, only_functio
                     name, user["k"] if user else "?", ent["guard"], _fmt_held(la, pos))
             else:
                 ok = pos is not None and la.holds(pos, guard, need)
+                if not ok and pos is not None:
+                    w = _thread_witness(ctx, cls, f, pos, guard, need)
+                    if w:
+                        ok, what = True, what + " (" + w + ")"
                 if not ok:
                     detail = "needs %s in mode %s; held here: %s" % (ent["guard"], need, _fmt_held(la, pos))
             if not ok and top.access == "private" and hs is None:
@@ -555,6 +559,15 @@ def _co_update(ctx, rid, cls, tab):
             continue
         # the bookkeeping changes in the same critical section as the container it describes
         g = "this." + tab[best[1]]["guard"] if tab[best[1]].get("guard") else None
+        own = None
+        for _s, held, _t, _i in wsites[fld]:
+            own = set(held) if own is None else (own & set(held))
+        if g and own and (own - {g}):
+            # the member has a mutex of its own at every write (the lockset rule judges that discipline): it is state with
+            # its own critical sections - a scratch buffer, a cache - not a description of the container's current content
+            ctx.note("new member %s is written under %s everywhere: not treated as bookkeeping of %s"
+                     % (fld, ", ".join(sorted(x[5:] for x in own - {g})), best[1]))
+            continue
         if g:
             for site, held, top, inst in wsites[fld]:
                 ok = g in held
@@ -610,6 +623,72 @@ def _atomic_call_is_load(f, user):
         return False
     c = user.get("callee") or {}
     return c.get("name") in ("load",) or c.get("kind") == "conv"
+
+
+def _thread_witness(ctx, cls, f, pos, guard, need):
+    """`if (t_current == this) { ...m_obj... }` without the lock: sound when the thread-local variable is a WITNESS that this
+    thread already holds the guard - it is written by the constructor and the destructor of one RAII marker class and by
+    nothing else, every marker is constructed with `this` while the guard is held (in the needed mode) and is declared
+    after the lock object, so it is destroyed - also on unwinding - before the lock is released.  Returns a text when the
+    access at `pos` is covered that way, None otherwise."""
+    from .flow import cond_atoms
+    fb, eng = ctx.fb, ctx.eng
+    wit = None
+    for b, blk in f.blocks.items():
+        if not (blk.term and blk.term.get("cond") and len(blk.succs) == 2 and blk.succs[0] is not None):
+            continue
+        if not (f.dominates_block(blk.succs[0], pos[0]) and len(f.blocks[blk.succs[0]].preds) == 1):
+            continue
+        for a in cond_atoms(f, f.s(blk.term["cond"]), True):
+            if a[0] == "eq" and a[3] is True and {a[1], a[2]} & {"this"} and any(isinstance(x, str) and x.startswith("g:") for x in (a[1], a[2])):
+                cond = a[4]
+                for d in f.descendants(cond):
+                    if d["k"] == "DeclRefExpr" and d["d"].get("tls") and d["d"].get("k") in ("static_member", "global", "static_local"):
+                        wit = d["d"]
+    if wit is None:
+        return None
+    # every store to the witness: inside the constructor / destructor of a marker class
+    markers = set()
+    for g in fb.functions(raw=True):
+        for st in g.stmts.values():
+            tgt = None
+            if st["k"] == "BinaryOperator" and st.get("op") == "=":
+                tgt = unwrap(g, g.children(st)[0])
+            elif st["k"] in ("UnaryOperator", "CompoundAssignOperator") and st.get("op") in ("++", "--", "+=", "-="):
+                tgt = unwrap(g, g.children(st)[0])
+            if tgt is None or tgt["k"] != "DeclRefExpr" or tgt["d"].get("id") != wit["id"]:
+                continue
+            if g.kind not in ("ctor", "dtor") or not g.rec or g.rec == cls:
+                return None         # written by ordinary code: a throw can leave it set
+            if g.kind == "ctor":
+                rhs = path(g, g.children(st)[1])
+                if not (rhs and rhs.startswith("p:")):
+                    return None
+            markers.add(g.recq if hasattr(g, "recq") else g.rec)
+    if len(markers) != 1:
+        return None
+    marker = list(markers)[0]
+    # every marker object: constructed with `this`, guard held in the needed mode, declared after the lock object
+    n = 0
+    for g in fb.functions(rec=cls, raw=True):
+        la = None
+        for st in g.stmts.values():
+            if st["k"] != "DeclStmt":
+                continue
+            for d in st["decls"]:
+                if d.get("type", "").replace("class ", "") != marker and not d.get("type", "").endswith("::" + marker.split("::")[-1]):
+                    continue
+                init = unwrap(g, g.s(d.get("init")))
+                arg = path(g, g.s(init["args"][0])) if init is not None and init.get("args") else None
+                la = la or locks_of(eng, fb, g)
+                p = g.pos_of(st)
+                if arg != "this" or p is None or not la.holds(p, guard, need):
+                    return None
+                n += 1
+    if n == 0:
+        return None
+    return "the calling thread already holds %s: %s == this is set only by the RAII marker %s, constructed under the lock in %d place(s)" \
+        % (guard[5:], wit["name"], marker.split("::")[-1], n)
 
 
 def _blind_stores(ctx, rid, cls, tab):
